@@ -181,6 +181,14 @@ func (w *World) exchange(p *pfcpx.Peer, kind string, req map[string]interface{},
 		got = p.WaitN(1, w.RespWait)
 	}
 
+	if w.pendingWait != nil {
+		if got {
+			w.pendingWait()
+		}
+
+		w.pendingWait = nil
+	}
+
 	w.settle(p, got, extraQuiet)
 
 	ds := p.Drain()
@@ -207,6 +215,10 @@ func (w *World) exchange(p *pfcpx.Peer, kind string, req map[string]interface{},
 	}
 
 	ev["markers"] = w.collectMarkers(programmedAt)
+	if w.SnapEvery {
+		ev["snap"] = w.snapJSON()
+	}
+
 	w.emit(ev)
 	w.Steps++
 
@@ -250,7 +262,15 @@ func (w *World) Release(peer string) []pfcpx.Dgram {
 	seq := p.NextSeq()
 	m := message.NewAssociationReleaseRequest(seq, ie.NewNodeID(p.NodeID, "", ""))
 
-	return w.exchange(p, "release", map[string]interface{}{"seq": pfcpx.V32(uint64(seq)), "node": "n:" + p.NodeID}, marshal(m), true, 40*time.Millisecond)
+	before := w.EventCount("conn.shutdown.done", p.LocalAddr())
+	w.pendingWait = func() {
+		// the teardown runs after the response was sent: wait for its end (hook event), else for an idle datapath
+		if !w.WaitEventCount("conn.shutdown.done", p.LocalAddr(), before+1, 400*time.Millisecond) {
+			time.Sleep(40 * time.Millisecond)
+		}
+	}
+
+	return w.exchange(p, "release", map[string]interface{}{"seq": pfcpx.V32(uint64(seq)), "node": "n:" + p.NodeID}, marshal(m), true, 0)
 }
 
 // App is one application of a PFD Management Request.
@@ -446,4 +466,92 @@ func (w *World) InjectResp(peer string, which int, seid uint64) []pfcpx.Dgram {
 	}
 
 	return w.exchange(p, "injectResp", map[string]interface{}{"seq": pfcpx.V32(uint64(seq)), "type": names[which]}, marshal(m), false, 6*time.Millisecond)
+}
+
+// WaitLost waits until the agent has torn the association of the peer down on its own (read time-out or
+// unanswered heartbeats) and records the "lost" event with what the datapath holds afterwards.
+func (w *World) WaitLost(peer string, why string, timeout time.Duration) bool {
+	p := w.Peer(peer)
+	before := w.EventCount("conn.shutdown.done", p.LocalAddr())
+	ok := w.WaitEventCount("conn.shutdown.done", p.LocalAddr(), before+1, timeout)
+	w.settle(p, true, 5*time.Millisecond)
+
+	if !ok {
+		w.LastErr = "association of " + peer + " was not torn down within the time limit (" + why + ")"
+		return false
+	}
+
+	ev := map[string]interface{}{"ev": "lost", "peer": p.Name, "why": why}
+	t := w.Bess.Snapshot()
+	ev["dp"] = w.dpJSON()
+	ev["cmds"] = t.Cmds
+	ev["errs"] = t.Errs
+
+	if w.SnapEvery {
+		ev["snap"] = w.snapJSON()
+	}
+
+	p.Drain()
+	w.emit(ev)
+	w.Steps++
+	w.CheckAlive()
+
+	return true
+}
+
+// Report makes the datapath report downlink data for the session (BESS notify socket), records the Session
+// Report Request the agent sends (if any) and answers it with the given cause (0 = do not answer).
+func (w *World) Report(peer string, upSeid uint64, cause uint8) []pfcpx.Dgram {
+	p := w.Peer(peer)
+	p.Drain()
+
+	if w.NotifyC == nil {
+		w.LastErr = "notify socket not connected"
+		return nil
+	}
+
+	b := make([]byte, 8)
+	for i := 0; i < 8; i++ {
+		b[i] = byte(upSeid >> (8 * i))
+	}
+
+	_, _ = w.NotifyC.Write(b)
+	got := p.WaitN(1, 300*time.Millisecond)
+	ds := p.Drain()
+	srr := []map[string]interface{}{}
+
+	for _, d := range ds {
+		m := w.respJSON(d)
+		m["dldr"] = maxInt(d.DLDRPdr, 0)
+		m["hasDldr"] = d.DLDRPdr >= 0
+		m["report"] = maxInt(d.Report, 0)
+		srr = append(srr, m)
+	}
+
+	if got && cause != 0 && len(ds) > 0 {
+		_ = p.Send(message.NewSessionReportResponse(0, 0, upSeid, ds[0].Seq, 0, ie.NewCause(cause)))
+	}
+
+	w.settle(p, got, 5*time.Millisecond)
+
+	late := p.Drain()
+	for _, d := range late {
+		srr = append(srr, w.respJSON(d))
+	}
+
+	ev := map[string]interface{}{"ev": "report", "peer": p.Name, "u": w.UpTok.Reg(upSeid), "srr": srr, "cause": int(cause)}
+	t := w.Bess.Snapshot()
+	ev["dp"] = w.dpJSON()
+	ev["cmds"] = t.Cmds
+	ev["errs"] = t.Errs
+
+	if w.SnapEvery {
+		ev["snap"] = w.snapJSON()
+	}
+
+	w.emit(ev)
+	w.Steps++
+	w.CheckAlive()
+
+	return ds
 }
